@@ -280,7 +280,7 @@ theorem C15_history (C : L3Contracts) (cs : List Call) (s : NetState) (hl : Node
       obtain ⟨s', r, a, b, c', m'⟩ := ih s1 l1 t1 d1 hrest (by omega)
       exact ⟨s', Runs.cons c cs s s1 s' h1 r, a, b, c', by omega⟩
     have hcfg : CfgBytes s.node.cfg := hi.good
-    have listens : ∀ s1, nexec c.run s = (.ok (), s1) → c.Admissible s.node.cfg → NodeListens s1 :=
+    have listens : ∀ s1, nexec c.run s = (.ok (), s1) → c.Admissible → NodeListens s1 :=
       fun s1 h1 ha => (C07_api c s s1 (Or.inl hi.open_) hl hcfg ha h1).1
     cases c with
     | update =>
